@@ -74,7 +74,8 @@ fn gen_ops(rng: &mut Rng, data_len: usize, crash: bool) -> Vec<ROp> {
     if rng.chance(5, 6) {
         ops.push(ROp::SetChunk(*rng.pick(&CHUNKS)));
     }
-    let nops = 3 + rng.small(60);
+    // under Miri every step costs ~50 ms: shorter histories, more of them
+    let nops = if cfg!(miri) { 2 + rng.small(14) } else { 3 + rng.small(60) };
     let w_crash = if crash { 3 } else { 0 };
     for _ in 0..nops {
         let k = rng.weighted(&[14, 6, 8, 8, 12, 6, 6, 4, 8, 3, 3, 3, w_crash, w_crash]);
@@ -116,6 +117,7 @@ fn gen_case(rng: &mut Rng, mode: Mode) -> ReaderCase {
     let len = match rng.below(10) {
         0 => rng.below(4),
         1..=5 => rng.range(4, 96),
+        _ if cfg!(miri) => rng.range(4, 96),
         _ => rng.range(64, 512),
     };
     // random payload: a duplicated, dropped or reordered segment almost surely changes content
@@ -544,6 +546,7 @@ impl Prop for ReaderProp {
 
         let mut violation: Option<Violation> = None;
         let shrink0 = crate::alloc::shrink_events();
+        let overruns0 = crate::alloc::overruns();
 
         if let Some(v) = self.invariants(&r, &m, &src, &data, 0, "<construction>") {
             violation = Some(v);
@@ -921,6 +924,13 @@ impl Prop for ReaderProp {
         };
         drop(s);
         drop(r);
+        if self.mode == Mode::C14 && violation.is_none() && crate::alloc::overruns() > overruns0 {
+            violation = viol(
+                "C14.heap_overrun",
+                "DeferredReader wrote past the end of a heap block (red zone damaged)".into(),
+                format!("{} damaged block(s)", crate::alloc::overruns() - overruns0),
+            );
+        }
         RunOut {
             violation,
             key,
